@@ -3,11 +3,15 @@
 proof : lean/GeosModel/Props/C02.lean — the DE-9IM algebra that makes the agreements necessary
         (transpose laws, pattern transposition, self relations) and consistent_of_true_matrix /
         inconsistent_exhibits_disagreement for the test `consistent` the driver applies.
+transl: translate/cxx2lean.py spec im_matrix -> Generated/IMMatrix.lean -> Props/C02Gen.lean (geom::IntersectionMatrix get / set / setAtLeast /
+        transpose / matches(pattern) = IM.get / set / raise / transpose / matchesPat, the objects of the algebra) and translate/im_preds.py ->
+        Generated/IMPreds.lean -> Props/C01Gen.lean (matches(int, char) and the ten named predicates), regenerated from the current source every run;
+        stream im-algebra runs the compiled class on random matrices / operation sequences / patterns against the same model.
 tie   : stream relate-dbl — generated valid pairs under arbitrary-double similarity maps (rotation, scale
         1e-3..1e9, offsets), axis-parallel rectangles (fast paths) with a redundant-vertex twin, XY point forms,
         prepared on either side, a reused prepared geometry asked in random order.  A failed `consistent`
         IS a failing input for the property: two paths disagree."""
-import os, json, glob
+import os, sys, json, glob
 import verif, gtok
 
 LEVEL = "proof"
@@ -39,7 +43,8 @@ def signature(a, b, verdict):
     """conjunct: which agreement fails; gc: a GeometryCollection is involved; nearIncidence (gc false): beyond shared
     vertices, a vertex lies within rounding distance of a segment of the other geometry WITHOUT being exactly on it, or two
     segments are collinear to rounding over a positive length without being exactly collinear (exact integer tests in the
-    driver); exactIncidence: such contacts exist but all of them are exact (determinant 0)."""
+    driver); exactIncidence: such contacts exist but all of them are exact (determinant 0).  For the self relations (equals / covers /
+    coveredBy of A with itself and its clone) nearIncidence is evaluated inside A."""
     t = verdict.split()
     conj = t[1] if len(t) > 1 else "?"
     nov = "?"
@@ -57,6 +62,9 @@ def signature(a, b, verdict):
     sig = {"conjunct": group, "gc": gc}
     if gc:
         pass
+    elif group == "self":
+        # nov of a self-relation failure is computed inside A: a vertex of A within rounding distance of another segment of A (not exactly on it)
+        sig["nearIncidence"] = (nov == "1")
     elif group in ("relate-paths", "predicate-vs-matrix", "rectangle"):
         sig["nearIncidence"] = (nov == "1")
         if nov in ("x", "xo"):
@@ -92,7 +100,23 @@ def run(ctx):
         "validity of generated inputs is filtered with GEOSisValid after the (inexact) similarity map",
         "dimension 'real' of each input (used by the dimension-dependent named predicates) is recomputed by the driver from the geometry structure",
     ])
-    proved = ctx.prove(PROPS, extra_targets=(DRV,))
+    # ---- translator: geom::IntersectionMatrix (the C++ the algebra of Props/C02 is about) is regenerated from the current source;
+    # Props/C02Gen (matrix operations) and Props/C01Gen (matches(int, char), named predicates) prove it equal to Base/IM for all arguments
+    sys.path.insert(0, os.path.join(verif.ROOT, "translate"))
+    import im_preds
+    props, gen_ok = list(PROPS), True
+    impreds = os.path.join(verif.ROOT, "lean", "GeosModel", "Generated", "IMPreds.lean")
+    try:
+        im_preds.generate(verif.REPO, impreds)
+        props.append("GeosModel.Props.C01Gen")
+    except (im_preds.Refuse, OSError) as ex:
+        gen_ok = False
+        ctx.violation("translate/im_preds.py refuses the current src/geom/IntersectionMatrix.cpp: %s (the generated model is stale; stream im-algebra "
+                      "still compares the compiled class with the model)" % ex,
+                      {"kind": "tie-broken", "translator": "im_preds.py", "detail": str(ex)}, nofail=True)
+    proved = ctx.prove_generated([("im_matrix", "GeosModel/Generated/IMMatrix.lean", "GeosModel.Props.C02Gen")], props, extra_targets=(DRV,))
+    ctx.cov["translator"]["im_preds"] = {"generated": "GeosModel/Generated/IMPreds.lean", "bridge": "GeosModel.Props.C01Gen", "translator": "translate/im_preds.py",
+                                         **({"functions": sum(1 for l in open(impreds) if l.startswith("def "))} if gen_ok else {"refused": True})}
     ok, out = verif.build_geos("rel")
     if not ok:
         ctx.violation("GEOS does not build with -DGEOS_VERIF", {"kind": "build-failure", "log": out[-3000:]}, nofail=True)
@@ -104,8 +128,23 @@ def run(ctx):
     quick = ctx.tier == "quick"
     n = 16000 if quick else 600000
     found_input = False
+    # ---- geom::IntersectionMatrix as a matrix vs Base/IM (the same C++ functions the translator regenerates)
+    ra = verif.run_stream(exe, "im-algebra", ctx.seed, 150000 if quick else 3000000, ctx.work, shards=8, driver_exe=DRV)
+    corr_alg = {"cases": ra["cases"], "disagreements": len(ra["disagreements"]) + ra.get("more_disagreements", 0), "distribution": ra["stats"]}
+    ctx.cov["samples"] += ra.get("samples", [])[:1]
+    if ra["error"]:
+        ctx.violation("stream im-algebra could not run: " + ra["error"], {"kind": "tie-broken", "correspondence": "im-algebra", "detail": ra["error"]}, nofail=True)
+    elif ra["disagreements"]:
+        idx, case, exp, got = ra["disagreements"][0]
+        found_input = True
+        # the model side is the matrix algebra the agreements of C02 are derived from (transpose laws, matchesPat_transpose)
+        ctx.violation("geom::IntersectionMatrix (get/set/setAtLeast/transpose/matches) differs from the DE-9IM matrix algebra: impl %s, model %s" % (exp, got),
+                      {"kind": "failing-input", "stream": "im-algebra", "case": case, "impl": exp, "model": got,
+                       "fields": "A <matrix> <pattern> <cell> <ops: sABd set, lABd setAtLeast, t transpose> -> final matrix, get(cell), matches(pattern) "
+                                 "and matches(transposed pattern) of the transposed matrix (X = throws)"},
+                      signature={"conjunct": "im-algebra"})
     r = verif.run_stream(exe, "relate-dbl", ctx.seed, n, ctx.work, shards=8, driver_exe=DRV, timeout=6000)
-    corr = {"relate-dbl": {"cases": r["cases"], "disagreements": len(r["disagreements"]) + r.get("more_disagreements", 0),
+    corr = {"im-algebra": corr_alg, "relate-dbl": {"cases": r["cases"], "disagreements": len(r["disagreements"]) + r.get("more_disagreements", 0),
                            "distribution": {k: v for k, v in r["stats"].items() if not k.startswith("matrix_")},
                            "distinct_matrices": sum(1 for k in r["stats"] if k.startswith("matrix_"))}}
     ctx.cov["samples"] += r.get("samples", [])[:2]
